@@ -95,7 +95,8 @@ def dash (l : List String) : String := if l.isEmpty then "-" else " ".intercalat
 def showFiles (cmd : Cmd) (w : List (OutName × List String)) : String :=
   dash (sortStrs (w.map (fun f => f.1.render cmd ++ "<-" ++ "+".intercalate (sortStrs f.2))))
 
-def showNames (cmd : Cmd) (l : List OutName) : String := dash (sortStrs (l.map (·.render cmd)))
+/-- names in the order given (the model and the spec sort them as main.go does) -/
+def showNames (cmd : Cmd) (l : List OutName) : String := dash (l.map (·.render cmd))
 
 def yn (b : Bool) : String := if b then "yes" else "no"
 
@@ -111,7 +112,7 @@ def showOutcome (cmd : Cmd) (bad : Option (List String)) : Outcome → List (Str
       ++ (match bad with | some b => [("baddiag", yn warned), ("badgen", dash (sortStrs (holdsBad b w)))] | none => [])
 
 def showSpec (cmd : Cmd) : SpecOut → List (String × String)
-  | .files fs => [("exit", "0"), ("files", showFiles cmd fs), ("listed", showNames cmd (fs.map (·.1)))]
+  | .files fs => [("exit", "0"), ("files", showFiles cmd fs), ("listed", showNames cmd (sortNames cmd (fs.map (·.1))))]
   | .rejected _ => [("baddiag", "yes"), ("badgen", "-")]
 
 /-- merge the observables of several possible outcomes: agreeing values stay, others become `oneof a | b` -/
